@@ -162,7 +162,12 @@ def run_dro(case, ses):
     ns = case['ns']
     for seq in case['seqs']:
         for mask in (MASKS if ses.tier == 'thorough' or len(seq) < 2 else MASKS[:3]):
-            for order in ('events-first', 'mask-first'):
+            # decisions declared AFTER x with another event partition (none / one value per scenario / static): the
+            # expansion of x must follow x's own declaration, not that of its neighbours
+            variants = [(o, t) for o in ('events-first', 'mask-first') for t in ('none', 'finest', 'static-affine')]
+            if ses.tier == 'quick':
+                variants = [('events-first', 'none'), ('mask-first', 'finest'), ('events-first', 'static-affine')]
+            for order, tail in variants:
                 with quiet():
                     m = dro.Model(ns)
                     z = m.rvar(3)
@@ -174,7 +179,25 @@ def run_dro(case, ses):
                         x.adapt(ev if len(ev) > 1 else ev[0])
                     if order == 'events-first':
                         dep = apply_mask(x, z, mask)
-                    rules = m.rule_var()
+                    if tail == 'finest':
+                        v = m.dvar(())
+                        for s_ in range(1, ns):
+                            v.adapt(s_)
+                    elif tail == 'static-affine':
+                        v = m.dvar(2)
+                        v.adapt(z[0])
+                    try:
+                        rules = m.rule_var()
+                    except Exception as e:
+                        rules = e
+                order = '%s tail=%s' % (order, tail)
+                if isinstance(rules, Exception):
+                    # every declaration above is legal: the expansion into per-scenario rules must exist
+                    ses.stats.obligations += 1
+                    report(ses, 'dro:legal-declaration-raises', 'dro ns=%d adapt=%s mask=%s %s: legal declarations, but the expansion '
+                           'into per-scenario rules raises %s: %s' % (ns, seq, mask, order, type(rules).__name__, str(rules)[:80]),
+                           dict(k='dro', ns=ns, seq=seq, mask=mask, order=order))
+                    continue
                 ses.stats.programs += 1
                 n = m.ro_model.rc_model.last
                 X = pvars('X', (n,))
@@ -239,6 +262,20 @@ def run_dro(case, ses):
                             ok = False
                             report(ses, 'dro:event-merged', '%s: scenarios %d and %d belong to different events but share '
                                    'a rule' % (label, s, t), dict(k='dro', ns=ns, seq=seq, mask=mask, order=order))
+                        # ... and every declared coefficient is free to differ between the two events as well
+                        for i in range(2):
+                            for j in range(3):
+                                if not dep[i, j]:
+                                    continue
+                                ca, cb = coefs[(s, i, j)], coefs[(t, i, j)]
+                                env2 = {nm: z3.Real(nm) for nm in (ca.vars() | cb.vars())}
+                                r2, _ = ses.expect_sat('%s/different-events %d|%d coef x%d z%d' % (label, s, t, i, j),
+                                                       [ca.z3(env2) != cb.z3(env2)], kind='different-events-free')
+                                if r2 == 'unsat':
+                                    ok = False
+                                    report(ses, 'dro:event-merged-coefficient', '%s: scenarios %d and %d belong to different events '
+                                           'but share the coefficient of x[%d] on z[%d]' % (label, s, t, i, j),
+                                           dict(k='dro', ns=ns, seq=seq, mask=mask, order=order))
                 # the static variable w (never adapted) is one value for all scenarios
                 for s in range(1, ns):
                     a, b = vals[0][w.first], vals[s][w.first]
